@@ -58,7 +58,12 @@ def func_span(text, fname):
     return m.start(), (nxt.start() if nxt else len(text))
 
 
-def locate(entry, src):
+FILTER_FUNC = {'C09': 'run_feedback_filter', 'C10': 'run_feedforward_filter', 'C11': 'run_feedforward_filter', 'C12': 'run_feedback_filter', 'C13': 'run_feedback_filter'}
+INTEG_FUNC = {'_integrate': ('strapdown.py', 'Integrator._integrate'), 'set_pva': ('strapdown.py', 'Integrator.set_pva'), '__init__': ('strapdown.py', 'Integrator.__init__'),
+              'kernel': ('_numba_integrate.py', 'integrate')}
+
+
+def locate(entry, src, prop=None):
     """-> (file, start, end, new) for the mutation an entry describes, or None"""
     strs = list(flatten(entry))
     # engine-A form: (modkey, func, old, new) somewhere in the entry
@@ -75,10 +80,32 @@ def locate(entry, src):
     cands = []
     if spec:
         cands.append((MODFILES[spec[0]], spec[1], spec[2], spec[3]))
+    if len(strs) >= 4 and strs[1] in INTEG_FUNC:
+        cands.append(INTEG_FUNC[strs[1]] + (strs[2], strs[3]))
+    if prop in FILTER_FUNC and len(strs) >= 3:
+        cands.append(('filters.py', FILTER_FUNC[prop], strs[1], strs[2]))
+        other = 'run_feedforward_filter' if FILTER_FUNC[prop] == 'run_feedback_filter' else 'run_feedback_filter'
+        cands.append(('filters.py', other, strs[1], strs[2]))
     for i in range(1, len(strs) - 1):
         cands.append((None, strs[i - 1] if i >= 2 else None, strs[i], strs[i + 1]))
     for fn_hint, func, old, new in cands:
-        if '\n' in old or old in ('pass',):
+        if old in ('pass',) or not old.strip():
+            continue
+        if '\n' in old:
+            # multi-line token (taken from dedented source): match modulo indentation
+            rx = re.compile(r'[ \t]*\n[ \t]*'.join(re.escape(l.strip()) for l in old.split('\n') if l.strip()))
+            hits = []
+            for fn in ([fn_hint] if fn_hint else sorted(src)):
+                ms = list(rx.finditer(src[fn]))
+                if ms:
+                    hits.append((fn, ms))
+            if len(hits) == 1 and len(hits[0][1]) == 1:
+                fn, (m_,) = hits[0]
+                text = src[fn]
+                ls = text.rfind('\n', 0, m_.start()) + 1
+                indent = re.match(r'[ \t]*', text[ls:]).group(0)
+                new2 = ('\n' + indent).join(l.strip() if i else l for i, l in enumerate(new.split('\n'))) if '\n' in new else new
+                return fn, m_.start(), m_.end(), new2
             continue
         files = [fn_hint] if fn_hint else sorted(src)
         hits = []
@@ -90,7 +117,7 @@ def locate(entry, src):
             if k >= 0:
                 n_in = text.count(old, lo, hi)
                 hits.append((fn, k, n_in))
-        if fn_hint and hits:
+        if fn_hint and hits and (func is None or func_span(src[fn_hint], func)):
             fn, k, _n = hits[0]
             return fn, k, k + len(old), new
         if len(hits) == 1 and hits[0][2] == 1:
@@ -151,13 +178,20 @@ def main(argv):
         i = argv.index('--jobs')
         jobs_n = int(argv[i + 1])
         argv = argv[:i] + argv[i + 2:]
+    only = None
+    if '--only' in argv:
+        i = argv.index('--only')
+        only = argv[i + 1]
+        argv = argv[:i] + argv[i + 2:]
     props = argv or ['C%02d' % i for i in range(1, 19)]
     src = sources()
     jobs, skipped = [], []
     for prop in props:
         seen = set()
         for table, e in canaries_of(prop):
-            loc = locate(e, src)
+            if only and only not in e[0]:
+                continue
+            loc = locate(e, src, prop)
             if loc is None:
                 skipped.append({'property': prop, 'canary': e[0], 'skipped': 'token not uniquely locatable on disk (multi-line or repeated)'})
                 continue
